@@ -664,6 +664,22 @@ class SInt:
         return str(S().realize(s.e))
 
 
+class SLetter(SInt):
+    """a DNA letter code known as base (0..3 = ACGT) + 4 * case bit: lets the models see through case"""
+    __slots__ = ("base", "case")
+
+    def __init__(self, base, case):
+        self.base = base  # int | SInt
+        self.case = case  # int | SInt
+        SInt.__init__(self, z3.simplify(tz(base) + 4 * tz(case)))
+
+
+def mkletter(base, case):
+    if isinstance(base, int) and isinstance(case, int):
+        return base + 4 * case
+    return SLetter(base, case)
+
+
 # ------------------------------------------------------------------------------------------------
 # letters.  code = index in ALPH for the letters the properties talk about, 1000+ord otherwise.
 
@@ -727,6 +743,11 @@ def map_code(c, table, generic, hint=None):
         if c >= 1000:
             return code_of(generic(chr(c - 1000)))
         return c
+    if isinstance(c, SLetter):
+        if table is _UPPER:
+            return c.base
+        if table is _LOWER:
+            return c.base + 4
     e = c.e
     keys = [k for k in table if hint is None or k in hint]
     if not keys:
